@@ -79,7 +79,7 @@ def classify_query(ctx, sc, py):
     for s in sc["path"]:
         ctx.count("step:" + s[0])
     js = json.dumps(sc["path"])
-    for kind in ("below", "nb", "tab", "has", "not", "all", "any"):
+    for kind in ("below", "below2", "nb", "tab", "has", "not", "all", "any"):
         if '["%s"' % kind in js:
             ctx.count("pred:" + kind)
     if py != "nosrc":
@@ -363,13 +363,14 @@ import oracles  # noqa: E402  (python-side support oracles; registers nothing by
 import families  # noqa: E402
 
 register("C01", streams=[Q("child", apis=["find_matches"], src=False, maxlen=5)],
-         observables=["results"], oracles=[oracles.identity_oracle, oracles.requery_oracle],
+         observables=["results"], oracles=[oracles.identity_oracle, oracles.requery_oracle, oracles.big_iteration_oracle_for({"kind": "wc", "n": 400000})],
          rule="random JSON documents (depth<=4, shuffled keys, empty containers, falsy scalars) x child-step paths grown by walking the document (75%) or free (25%); non-trivial = at least one result and >=2 steps, or an exception; distinct by scenario hash",
          assumptions=["floats restricted to half-integers", "slice step 0 and bool indices excluded (not supported steps)"])
 register("C02", streams=[Q("rec", apis=["find_matches"], src=False, maxlen=5)],
-         observables=["results"], oracles=[oracles.reiter_oracle],
+         observables=["results"], oracles=[oracles.reiter_oracle, oracles.big_iteration_oracle_for({"kind": "rec", "n": 180000})],
          rule="documents with ragged depth and empty containers x paths with >=1 recursive step mixed with all other step kinds; non-trivial as C01")
-register("C03", streams=[Q("filter", pred="custom", apis=["find_matches"], src=False, share=2), Q("filter", pred="mixed", apis=["find_matches"], src=False, share=1)],
+register("C03", streams=[Q("filter", pred="custom", apis=["find_matches"], src=False, share=2), Q("filter", pred="mixed", apis=["find_matches"], src=False, share=1),
+                         Q("filterpar", pred="custom", apis=["find_matches"], src=None, share=1)],
          observables=["calls", "results_exc"],
          rule="paths with filters in any position (root, after wildcard/rec/slice, stacked, followed by steps); predicates are decision tables over the candidate returning arbitrary truthy/falsy objects or raising, neighbour lookups, and has-family predicates; compared: results, per-candidate call log (path, data_name, data, parent), exception cause chain")
 register("C04", streams=[Q("filter", pred="has", apis=["find_matches"], src=False, share=5),
@@ -377,7 +378,7 @@ register("C04", streams=[Q("filter", pred="has", apis=["find_matches"], src=Fals
          observables=["fncalls", "results_exc"],
          rule="has/has_not/has_all/has_any trees (depth<=3) over relative paths incl. wildcards, recursion, parent steps, nested filters; six operators; constants of every JSON kind; conversion chains of length 0-3 that raise on part of the data; compared: results, conversion call order, exception chain")
 register("C05", streams=[Q("all", apis=ALL_APIS, src=None, share=3, untraced=0.4), Q("parent", apis=ALL_APIS, src=True, share=1, untraced=0.4)],
-         observables=["results_exc"], oracles=[oracles.deep_oracle],
+         observables=["results_exc"], oracles=[oracles.deep_oracle, oracles.big_iteration_oracle_for({"kind": "find", "n": 260000})],
          rule="all four read functions on the same (path, source) space, source = document or k-th match of another path; default in {none, constant incl. falsy and {}, callable}; must_match in {True, False}")
 register("C07", generated=["Shared"], streams=[Q("all", apis=["find_matches", "find"], src=None, nexts="partial", untraced=0.5, share=4),
                          Q("filter", pred="below", apis=["find_matches", "find"], src=None, nexts="partial", untraced=0.5, share=1)],
